@@ -55,6 +55,9 @@ def rdf_isomorphic(t1, t2):
 
 
 class C13(Oracle):
+    # reach probes that must not be stuck at zero (else the workload is not reaching what
+    # the design says it reaches): the check then exits 2
+    required_probes = {"quick": ['rdf_isomorphism_checks', 'exporter_raised'], "thorough": ['rdf_isomorphism_checks', 'exporter_raised']}
     prop = "C13"
 
     def swarm(self, rng):
